@@ -195,6 +195,38 @@ static void op_lifeleak(const V &a, V &r) {
 }
 #endif
 
+// aliases n k l t basebit : the convenience pointers inside freshly built objects point where the documentation says
+//   (TLweSample.b = a + k, TLweSampleFFT.b = a + k, TGswSample.bloc_sample[u] = all_sample + u*l, TGswSampleFFT.sample[u] = all_samples + u*l,
+//    TGswKey.key = tlwe_key.key, LweKeySwitchKey.ks[i] = ks1_raw + i*t, ks[i][j] = ks0_raw + (i*t+j)*base, fields k/l/n/t/base as requested,
+//    fresh variances 0); prints the number of violated invariants and the first violated one
+static void op_aliases(const V &a, V &r) {
+    int n = a[0], k = a[1], l = a[2], t = a[3], bb = a[4]; const int N = 1024, base = 1 << bb;
+    LweParams *lp = new_LweParams(n, 0., 0.25); TLweParams *tp = new_TLweParams(N, k, 0., 0.25); TGswParams *gp = new_TGswParams(l, 2, tp);
+    long bad = 0, first = 0; int id = 0;
+    auto chk = [&](bool ok) { id++; if (!ok) { if (!bad) first = id; bad++; } };
+    TLweSample *ts = new_TLweSample(tp); chk(ts->b == ts->a + k); chk(ts->k == k); chk(ts->current_variance == 0.); chk(ts->a[0].N == N && ts->a[k].N == N);
+    TLweSampleFFT *tf = new_TLweSampleFFT(tp); chk((void *) tf->b == (void *) (tf->a + k)); chk(tf->k == k);
+    TLweSample *ta = new_TLweSample_array(3, tp); for (int q = 0; q < 3; q++) chk(ta[q].b == ta[q].a + k);
+    TGswSample *gs = new_TGswSample(gp); for (int u = 0; u <= k; u++) chk(gs->bloc_sample[u] == gs->all_sample + u * l); chk(gs->k == k && gs->l == l);
+    for (int q = 0; q < (k + 1) * l; q++) chk(gs->all_sample[q].b == gs->all_sample[q].a + k);
+    TGswSampleFFT *gf = new_TGswSampleFFT(gp); for (int u = 0; u <= k; u++) chk(gf->sample[u] == gf->all_samples + u * l); chk(gf->k == k && gf->l == l);
+    for (int q = 0; q < (k + 1) * l; q++) chk((void *) gf->all_samples[q].b == (void *) (gf->all_samples[q].a + k));
+    TGswKey *gk = new_TGswKey(gp); chk(gk->key == gk->tlwe_key.key); chk(gk->tlwe_params == tp); chk(gk->params == gp); chk(gk->tlwe_key.params == tp);
+    TLweKey *tk = new_TLweKey(tp); chk(tk->params == tp); for (int u = 0; u < k; u++) chk(tk->key[u].N == N);
+    LweKey *lk = new_LweKey(lp); chk(lk->params == lp);
+    LweSample *ls = new_LweSample(lp); chk(ls->current_variance == 0.); chk(ls->b == 0);
+    LweKeySwitchKey *ks = new_LweKeySwitchKey(5, t, bb, lp); chk(ks->n == 5 && ks->t == t && ks->basebit == bb && ks->base == base && ks->out_params == lp);
+    for (int i = 0; i < 5; i++) { chk(ks->ks[i] == ks->ks1_raw + i * t); for (int j = 0; j < t; j++) chk(ks->ks[i][j] == ks->ks0_raw + (i * t + j) * base); }
+    LweBootstrappingKey *bk = new_LweBootstrappingKey(t, bb, lp, gp);
+    chk(bk->in_out_params == lp && bk->bk_params == gp && bk->accum_params == tp && bk->extract_params == &tp->extracted_lweparams);
+    chk(bk->ks->n == k * N && bk->ks->t == t && bk->ks->basebit == bb && bk->ks->out_params == lp);
+    chk(tp->extracted_lweparams.n == k * N); chk(gp->kpl == (k + 1) * l); chk(gp->tlwe_params == tp);
+    delete_LweBootstrappingKey(bk); delete_LweKeySwitchKey(ks); delete_LweSample(ls); delete_LweKey(lk); delete_TLweKey(tk); delete_TGswKey(gk);
+    delete_TGswSampleFFT(gf); delete_TGswSample(gs); delete_TLweSample_array(3, ta); delete_TLweSampleFFT(tf); delete_TLweSample(ts);
+    delete_TGswParams(gp); delete_TLweParams(tp); delete_LweParams(lp);
+    r.push_back(bad); r.push_back(first); r.push_back(id);
+}
+
 // karamem <size> <trials> <seed> : Karatsuba_aux on caller-provided arrays of exactly the size the model predicts, each followed by
 //   guard words; prints: highest written byte offset of buf + 1 (max over trials), 1 if every guard survived, 1 if the result
 //   equals the schoolbook product.  Under ASan the arrays are exact-size heap blocks (an access past them aborts).
@@ -238,6 +270,7 @@ int main() {
         else if (op == "small") op_small(a, r);
         else if (op == "threads") op_threads(a, r);
         else if (op == "karamem") op_karamem(a, r);
+        else if (op == "aliases") op_aliases(a, r);
 #ifdef VERIF_LEDGER
         else if (op == "ledger") op_ledger(a, r);
         else if (op == "lifeleak") op_lifeleak(a, r);
